@@ -150,7 +150,7 @@ def _dense_oracle(ju, ids, r):
 
 def id_sets(ctx):
     rnd = ctx.rng("idsets")
-    small_u = [0, 1, 5, 0x100, 0x01000000, 0xFFFFFFFF, 0xA9059CBB, 0xA9059C00, 0x12340000]
+    small_u = [0, 1, 0x01000000, 0xFFFFFFFF, 0xA9059CBB, 0xA9059C00, 0x12340000, 0x80000000]
     sets = [()]
     for k in (1, 2, 3):
         sets += list(itertools.combinations(small_u, k))
@@ -158,7 +158,7 @@ def id_sets(ctx):
         sets += list(itertools.combinations(small_u, 4))
     # adversarial: no magic exists (RuntimeError path), and near-adversarial
     c = rnd.randrange(2**31)
-    sets += [tuple(c + 60 * k for k in range(5)), tuple(c + 60 * k for k in range(4)), tuple(range(7))]
+    sets += [tuple(c + 60 * k for k in range(5)), tuple(c + 60 * k for k in range(4)), (0, 5, 0x100)]
     # model evaluation cost (vm_compute) is dominated by failing magic searches: ~10-20 s CPU per set above ~10 ids
     if ctx.tier == "quick":
         sizes = list(range(1, 10)) * 2 + [11, 14, rnd.randrange(15, 30), rnd.randrange(30, 60), rnd.randrange(60, 80), 80]
@@ -203,7 +203,7 @@ def part_tables(ctx, model_ok):
                 exprs.append(f"enc_magic {zl}"); expect.append(jt.magic(ids)); names.append(("find_magic_for", ids))
                 for n in sorted({0, 1, len(ids), rnd.randrange(1, 9)}):
                     exprs.append(f"enc_mk {zl} {n}"); expect.append(jt.mk(ids, n)); names.append((f"_mk_buckets n={n}", ids))
-                    if n > 0:
+                    if n > 1 or (n == 1 and len(ids) > 3):
                         exprs.append(f"enc_dji {zl} {n}"); expect.append(jt.dji(ids, n)); names.append((f"_dense_jumptable_info n={n}", ids))
                 m = rnd.randrange(2**16)
                 exprs.append(f"enc_image {zl} {m}"); expect.append(jt.image(ids, m)); names.append((f"_image_of magic={m}", ids))
@@ -217,16 +217,19 @@ def part_tables(ctx, model_ok):
     ctx.corr["table_cases"] = len(exprs)
     if found or not model_ok:
         return len(exprs), found
-    # biggest first so that shards balance
-    shards = 12
-    bysize = sorted(range(len(exprs)), key=lambda i: (-len(names[i][1]), names[i][0]))
-    order = [i for j in range(shards) for i in bysize[j::shards]]
+    # vm_compute cost is dominated by (failing) magic searches on sets above ~10 ids: one coqc per heavy case
+    heavy = [i for i in range(len(exprs)) if len(names[i][1]) >= 10 and not names[i][0].startswith("generate_sparse")]
+    light = [i for i in range(len(exprs)) if i not in set(heavy)]
     outs = [None] * len(exprs)
-    got = coqrun.eval_zlists(IMPORTS, [exprs[i] for i in order], "c07tab",
-                             shard=max(1, (len(exprs) + shards - 1) // shards), timeout=600)
-    # eval_zlists shards consecutive slices; interleave sizes to balance: reorder below
-    for i, g in zip(order, got):
-        outs[i] = g
+    from concurrent.futures import ThreadPoolExecutor
+    with ThreadPoolExecutor(max_workers=2) as ex:
+        fh = ex.submit(coqrun.eval_zlists, IMPORTS, [exprs[i] for i in heavy], "c07tabh", shard=1, timeout=600)
+        fl = ex.submit(coqrun.eval_zlists, IMPORTS, [exprs[i] for i in light], "c07tabl",
+                       shard=max(1, (len(light) + 5) // 6), timeout=600)
+        for i, g in zip(heavy, fh.result()):
+            outs[i] = g
+        for i, g in zip(light, fl.result()):
+            outs[i] = g
     for (fn, ids), e, g in zip(names, expect, outs):
         if e != g:
             ctx.violation("correspondence-broken", f"model of {fn} disagrees with jumptable_utils",
